@@ -102,7 +102,7 @@ class Prop:
         ops, meta = [], []
         for cname in sorted(gen.concrete_classes()):
             t, disc = gen.TYPE_OF[cname]
-            for rep in range(6 if ctx.tier == 'quick' else 30):
+            for rep in range(6 if ctx.tier == 'quick' else 200):
                 bits = gen.payload_bits(rng, cname)
                 o = impl.step('frombits_cls %s %s' % (cname, bits))
                 if o.startswith('ERR'):
